@@ -331,7 +331,15 @@ def nf(e):
             return 'not(' + nf(inner) + ')'
     if isinstance(e, ast.BoolOp):
         name = 'and' if isinstance(e.op, ast.And) else 'or'
-        return name + '(' + ','.join(sorted(nf(v) for v in e.values)) + ')'
+        parts = []
+        for v in e.values:
+            t = nf(v)
+            # a chained comparison inside an `and` is itself a conjunction: flatten (0 < i < n and ... == 0 < i and i < n and ...)
+            if name == 'and' and isinstance(v, ast.Compare) and len(v.ops) > 1 and t.startswith('and(') and t.endswith(')'):
+                parts.extend(_split_top(t[4:-1]))
+            else:
+                parts.append(t)
+        return name + '(' + ','.join(sorted(parts)) + ')'
     if isinstance(e, ast.Compare):
         parts = []
         left = e.left
@@ -381,7 +389,11 @@ def nf(e):
         kws = sorted((k.arg or '**') + '=' + nf(k.value) for k in e.keywords)
         return fn + '(' + ','.join(args + kws) + ')'
     if isinstance(e, ast.Subscript):
-        return nf(e.value) + '[' + _nf_index(e.slice) + ']'
+        sl = e.slice
+        # a[np.where(mask)] selects the same elements as a[mask]
+        if isinstance(sl, ast.Call) and _fname(sl.func) in ('where', 'nonzero') and len(sl.args) == 1 and not sl.keywords:
+            sl = sl.args[0]
+        return nf(e.value) + '[' + _nf_index(sl) + ']'
     if isinstance(e, (ast.Tuple, ast.List)):
         return ('(' if isinstance(e, ast.Tuple) else '[') + ','.join(nf(x) for x in e.elts) + (')' if isinstance(e, ast.Tuple) else ']')
     if isinstance(e, ast.IfExp):
@@ -404,6 +416,23 @@ def nf(e):
 
 def _nf_comp(g):
     return ' for ' + nf(g.target) + ' in ' + nf(g.iter) + ''.join(' if ' + nf(c) for c in g.ifs)
+
+
+def _split_top(t):
+    """Split a normal-form argument list at top-level commas."""
+    out, depth, cur = [], 0, ''
+    for ch in t:
+        if ch in '([{':
+            depth += 1
+        elif ch in ')]}':
+            depth -= 1
+        if ch == ',' and depth == 0:
+            out.append(cur)
+            cur = ''
+        else:
+            cur += ch
+    out.append(cur)
+    return out
 
 
 def _nf_index(s):
